@@ -2,12 +2,17 @@
 from vf import h, skel
 from vf.skel import SKELETONS
 
+h.install_struct_model()
+h.stub_udf_crc()
+h.stub_progress()
+
 CFG = h.P.get('cfg') or skel.cfg_of()
 SK = SKELETONS[h.P.get('sk', 'sk1')]
 MAXLEN = h.P.get('maxlen', 0x3ffff800)
 MINLEN = h.P.get('minlen', 0)
 
 META = {
+    'validate': ['struct_model_vs_struct', 'fpmodel_vs_bytesio'],
     'explanation': 'C04: per-edit delta accounting (_finish_add/_finish_remove/add_to_ptr_size/add_file_ident_desc/add_rr_ce_entry) '
                    'versus the from-scratch pass _reshuffle_extents, on skeleton histories of real API calls with symbolic file lengths.',
     'assumptions': ['names are concrete; histories are the stated skeleton family; file lengths range over the stated interval',
@@ -26,6 +31,26 @@ def alloc(l0: int, l1: int, l2: int) -> bool:
     iso.force_consistency()
     sp = skel.collect_spans(iso)
     return h.post(skel.spans_ok(iso, sp))
+
+
+def master(l0: int, l1: int, l2: int) -> bool:
+    """
+    pre: MINLEN <= l0 <= MAXLEN and MINLEN <= l1 <= MAXLEN and MINLEN <= l2 <= MAXLEN
+    post: _
+    """
+    # C04.b: the write log of the REAL write_fp: nothing written twice, nothing beyond the declared size,
+    # final length == declared size
+    iso = skel.new_iso(CFG)
+    SK(iso, [l0, l1, l2], CFG)
+    out = h.OutFP()
+    iso.write_fp(out, blocksize=1 << 40)
+    total = iso.pvd.space_size * 2048
+    ok = (out.end == total)
+    log = out.log
+    for a in log:
+        ok = ok & (0 <= a[0]) & (a[1] <= total)
+    ok = ok & h.disjoint(log)
+    return h.post(ok)
 
 
 FUNCS_ALLOC = ['PyCdlib.new', 'PyCdlib.add_fp', 'PyCdlib.add_directory', 'PyCdlib.rm_file', 'PyCdlib.add_hard_link',
@@ -49,6 +74,19 @@ def obligations(tier):
                             sk, SKELETONS[sk].__doc__.split('\n')[0], skel.cfg_name(c), 1 if sk == 'sk3' else 0),
                         'functions': FUNCS_ALLOC, 'samples': [(1, 2048, 2049)],
                         'stubs': ['M_rand', 'constant time.time', 'Span file data']})
+    for sk in (['sk1', 'sk2'] if tier == 'quick' else ['sk1', 'sk2', 'sk3', 'sk4']):
+        for c in cfgs:
+            if sk == 'sk4' and not c['rr']:
+                continue
+            obs.append({'name': 'C04.b/%s/%s' % (sk, skel.cfg_name(c)), 'module': __name__, 'func': 'master',
+                        'params': {'sk': sk, 'cfg': c, 'minlen': 1 if sk == 'sk3' else 0},
+                        'cond_timeout': 900, 'path_timeout': 200,
+                        'bounds': 'skeleton %s; config %s; three file lengths symbolic in [0, 0x3ffff800]; one copy-loop iteration per file (blocksize 2^40)' % (
+                            sk, skel.cfg_name(c)),
+                        'functions': ['PyCdlib.write_fp', 'PyCdlib._write_fp', 'PyCdlib._write_directory_records', 'PyCdlib._output_file_data',
+                                      'PyCdlib._outfp_write_with_check', 'utils.copy_data_yield', 'utils.zero_pad', 'every record() reached'],
+                        'samples': [(1, 2048, 2049)],
+                        'stubs': ['M_struct', 'M_out position-only output', 'M_rand', 'constant time.time', 'Span file data']})
     return obs
 
 
